@@ -6,6 +6,8 @@ hole spec ('H', cls, n, opts) with cls in TEXT / NAME / BLANK.
 """
 import random
 
+__symtex_trusted__ = True     # pure data handling: safe to run uninstrumented on symbolic strings
+
 LETTERS = [(65, 90), (97, 122)]
 SPECIALS = '\\{}$%[]\x00\x7f\r'
 RESERVED = {'begin', 'end', 'item', 'in', 'def', 'textbf', 'section', 'label', 'cap', 'cup', 'notin', 'infty',
@@ -41,16 +43,16 @@ class Gen:
     def blocks(self, depth, ctx, n=None, prev=None):
         out = []
         k = self.r.randint(0, 3) if n is None else n
-        prev2 = None
+        hist = [prev] if prev is not None else []
         for _ in range(k):
             for _try in range(40):
-                b = self.block(depth, ctx, prev)
-                if ok_after(prev, prev2, b):
+                b = self.block(depth, ctx, hist[-1] if hist else None)
+                if ok_after(hist, b):
                     break
             else:
                 continue
             out.append(b)
-            prev2, prev = prev, b
+            hist.append(b)
         return out
 
     def block(self, depth, ctx, prev):
@@ -130,15 +132,19 @@ def starts_dollar(n):
     return n['k'] == 'math' and n['d'][0].startswith('$')
 
 
-def ok_after(prev, prev2, n):
-    """structural well-formedness between siblings (WF1-WF3)"""
-    if prev is None:
+def ok_after(hist, n):
+    """structural well-formedness between siblings (WF1-WF3); hist = preceding siblings, oldest first
+    (for a body it starts with a pseudo command standing for \\begin{..} / \\item)"""
+    if not hist:
         return True
-    cmdlike = prev['k'] in ('cmd', 'def', 'item')
-    if cmdlike and n['k'] == 'group':
-        return False
-    if prev['k'] == 'text' and prev2 is not None and prev2['k'] in ('cmd', 'def', 'item') and n['k'] == 'group':
-        return False        # (could be allowed with a "not attachable" assumption on the text hole)
+    prev = hist[-1]
+    if n['k'] == 'group':
+        # WF1: no group directly after a command-like block, nor after text that may be blank behind one
+        j = len(hist) - 1
+        while j >= 0 and hist[j]['k'] == 'text':
+            j -= 1
+        if j >= 0 and hist[j]['k'] in ('cmd', 'def', 'item'):
+            return False
     if prev['k'] == 'math' and prev['d'][0] == '$' and starts_dollar(n):
         return False
     return True
